@@ -94,6 +94,22 @@ def gen_queries(rng, kb, sg, keys, limit, far=True):
             if v <= top: qs.add(v)
             v = ks[0] - (1 << j)
             if v >= lo: qs.add(v)
+        if kb == 64 and not sg:
+            # products slope*(q - key) just below 2^63 / 2^62: int64_t(p) + intercept must not overflow (saturation limits)
+            anchors = {ks[-1], ks[0], ks[len(ks) // 2]}
+            for m in (2, 50, 200, 1000):
+                if len(keys) > m: anchors.add(keys[-m])
+            for a in anchors:
+                for lim in (1 << 63, 1 << 62):
+                    for d in (0, 1, 512, 1024, 2048, 3072, 8192):
+                        v = a + lim - d
+                        if lo <= v <= top: qs.add(v)
+            for m in (50, 200, 1000):
+                if len(keys) > m and keys[-1] > keys[-m]:
+                    for lim in (1 << 63, 1 << 62):
+                        for t in (0, 700, 1500, 4000):
+                            v = keys[-m] + ((lim - t) * (keys[-1] - keys[-m])) // (m - 1)
+                            if lo <= v <= top: qs.add(v)
     return sorted(qs)
 
 STYLES = ["dense", "sparse", "clustered", "runs", "band", "steps", "top", "bottom"]
